@@ -76,13 +76,13 @@ def oracle_symmetries(rep, rng, n, hint=None):
             P, Pm = parts(phi), parts(mir)
             scale = abs(P[0]) + abs(Pm[0])
             bad = None
-            if mode == 'mirror' or True:
-                want = [(+1, 'helicity-independent part'), (-1, 'beam single-spin part'),
-                        (-1, 'target single-spin part'), (+1, 'double-spin part')]
-                for (sg, nm), a, b_ in zip(want, P, Pm):
-                    if abs(b_ - sg * a) > 1e-9 * scale:
-                        bad = '%s not %s under phi -> 2pi-phi: %r vs %r' % (nm, 'even' if sg > 0 else 'odd', a, b_)
-                        break
+            # the parities under phi -> 2pi-phi hold for every configuration: they are checked in every mode, not only 'mirror'
+            want = [(+1, 'helicity-independent part'), (-1, 'beam single-spin part'),
+                    (-1, 'target single-spin part'), (+1, 'double-spin part')]
+            for (sg, nm), a, b_ in zip(want, P, Pm):
+                if abs(b_ - sg * a) > 1e-9 * scale:
+                    bad = '%s not %s under phi -> 2pi-phi: %r vs %r' % (nm, 'even' if sg > 0 else 'odd', a, b_)
+                    break
             if not bad and mode == 'real' and (abs(P[1]) > 1e-10 * scale or abs(P[2]) > 1e-10 * scale):
                 bad = 'single-spin difference does not vanish for real CFFs: beam %r target %r (scale %r)' % (P[1], P[2], scale)
             if not bad and mode in ('zeroCFF', 'zeroEFF', 'pureBH'):
@@ -140,8 +140,104 @@ def oracle_symmetries(rep, rng, n, hint=None):
                 rep.violation('symmetry/%s/%s/%s' % (fset, target, bad.split(':')[0][:40].replace(' ', '_')),
                               '%s, target %s: %s' % (fset, target, bad), dict(set=fset, target=target, kinematics=kw, model=m, mode=mode, one_point_set_in_place=inplace))
         except Exception as e:
-            rep.violation('symmetry/exception/%s' % type(e).__name__, '%s: XS raised %r' % (fset, e), dict(set=fset, kinematics=kw))
+            # a failing input only when the package itself raised (a frame under REPO/src); a fault of this harness is re-raised
+            if not B.in_real_code(e):
+                raise
+            rep.violation('symmetry/exception/%s' % type(e).__name__, '%s: XS raised %r' % (fset, e),
+                          dict(set=fset, target=target, kinematics=kw, model=m, mode=mode, one_point_set_in_place=inplace))
     return cnt
+
+
+def attribute_type_stream(rep, rng, n):
+    """helicity / charge / target polarisation given as numpy objects (np.int64, np.float64, np.int32, 0-d arrays, a vector holding
+    both helicities) on ONE point that is evaluated repeatedly (XS with and without flip=, XUU, XLU, AC, ALU, mirrored azimuth):
+    every value equals the one a fresh point with plain Python ints gives, the beam-spin difference stays odd under
+    phi -> 2pi-phi on the re-used point, and the caller's attribute objects are left exactly as they were"""
+    import numpy as np
+    import gepard as g
+    wraps = [('np.int64', np.int64), ('0-d int ndarray', lambda v: np.array(int(v))), ('np.float64', np.float64),
+             ('0-d float ndarray', lambda v: np.array(float(v))), ('np.int32', np.int32), ('vector of both helicities', None)]
+    for i in range(n):
+        fset = B.FORMULA_SETS[i % 5] if i < 10 else rng.choice(B.FORMULA_SETS)
+        target = rng.choice(['U', 'L'] if fset in B.LP_SETS else ['U'])
+        kw = B.random_kinematics(rng)
+        kw['in1polarization'] = rng.choice([-1, 1])
+        if target == 'L':
+            kw['in2polarizationvector'] = 'L'
+            kw['in2polarization'] = rng.choice([-1, 1])
+        phi, mir = kw['phi'], 2 * math.pi - kw['phi']
+        m = B.random_m(rng)
+        th = B.theory(fset, m)
+        wname, w = wraps[i % len(wraps)]
+        attrs = [a for a in ('in1polarization', 'in1charge', 'in2polarization') if a in kw]
+        if w is None:
+            held = {'in1polarization': np.array([kw['in1polarization'], -kw['in1polarization']])}
+        else:
+            held = {a: w(kw[a]) for a in (attrs if i % 2 == 0 else rng.sample(attrs, 1))}
+        before = {a: (type(v), np.asarray(v).dtype, np.array(v, copy=True)) for a, v in held.items()}
+        rep.hist('attribute-type', wname)
+        calls = [('XS', lambda o, p_: o.XS(p_)), ('XLU', lambda o, p_: o.XLU(p_)), ('XS', lambda o, p_: o.XS(p_)),
+                 ('XS flip=in1polarization', lambda o, p_: o.XS(p_, flip='in1polarization')),
+                 ('XUU', lambda o, p_: o.XUU(p_)), ('AC', lambda o, p_: o.AC(p_)), ('ALU', lambda o, p_: o.ALU(p_)),
+                 ('XS flip=[in1polarization, in1charge]', lambda o, p_: o.XS(p_, flip=['in1polarization', 'in1charge'])),
+                 ('XLU vars phi', lambda o, p_: o.XLU(p_, vars={'phi': phi})), ('XLU vars 2pi-phi', lambda o, p_: o.XLU(p_, vars={'phi': mir})),
+                 ('XS', lambda o, p_: o.XS(p_))]
+        if target == 'L':
+            calls.insert(4, ('XS flip=in2polarization', lambda o, p_: o.XS(p_, flip='in2polarization')))
+            calls = [c for c in calls if c[0] not in ('XLU', 'XUU', 'AC', 'ALU', 'XLU vars phi', 'XLU vars 2pi-phi')] + \
+                [('XS flip=[in1polarization, in2polarization]', lambda o, p_: o.XS(p_, flip=['in1polarization', 'in2polarization'])),
+                 ('XS', lambda o, p_: o.XS(p_))]
+        if i % 3 == 2:
+            head, tail = calls[:1], calls[1:]
+            rng.shuffle(tail)
+            calls = head + tail
+        replay = dict(set=fset, target=target, kinematics=kw, model=m, attribute_type=wname, numpy_typed=sorted(held),
+                      calls_on_one_point=[c[0] for c in calls])
+        try:
+            ptn = g.DataPoint(**dict(kw, **held))
+            for a, v in held.items():
+                setattr(ptn, a, v)                  # the caller's own objects, whatever the constructor does with its arguments
+            bad = None
+            touched = None          # the first change of a caller's object; the run goes on to show what it does to the values
+            got = {}
+            for k_, (nm, f) in enumerate(calls):
+                val = np.asarray(f(th, ptn), dtype=float)
+                # reference: fresh point(s) with plain Python numbers
+                if w is None:
+                    ref = np.array([float(f(th, g.DataPoint(**dict(kw, in1polarization=h)))) for h in (kw['in1polarization'], -kw['in1polarization'])])
+                else:
+                    ref = np.asarray(float(f(th, g.DataPoint(**kw))))
+                sc = np.abs(np.asarray(float(th.XS(g.DataPoint(**kw)))))
+                rep.case('oracle.attribute-type', (fset, target, wname, i, k_, nm))
+                got.setdefault(nm, []).append(val)
+                if val.shape != ref.shape or not np.all(np.abs(val - ref) <= 1e-12 * np.maximum(sc, np.abs(ref))):
+                    bad = 'call %d (%s) on the point with %s given as %s returns %s; a fresh point with plain ints gives %s' % (
+                        k_ + 1, nm, '/'.join(sorted(held)), wname, val.tolist(), ref.tolist())
+                for a, v in held.items():
+                    t0, d0, v0 = before[a]
+                    cur = getattr(ptn, a, None)
+                    if touched:
+                        continue
+                    if not (type(v) is t0 and np.asarray(v).dtype == d0 and np.array_equal(np.asarray(v), v0)):
+                        touched = 'after call %d (%s) the caller\'s %s object (%s) holds %r, it held %r before' % (
+                            k_ + 1, nm, a, wname, np.asarray(v).tolist(), v0.tolist())
+                    elif not (np.asarray(cur).shape == v0.shape and np.array_equal(np.asarray(cur), v0)):
+                        touched = 'after call %d (%s) the point\'s %s is %r, it was %r' % (k_ + 1, nm, a, cur, v0.tolist())
+                if bad:
+                    break
+            if touched:
+                bad = touched + ('; ' + bad if bad else '')
+            if (not bad or bad == touched) and 'XLU vars phi' in got and 'XLU vars 2pi-phi' in got:
+                a_, b_ = got['XLU vars phi'][0], got['XLU vars 2pi-phi'][0]
+                if not np.all(np.abs(a_ + b_) <= 1e-9 * 2 * sc):
+                    bad = (bad + '; ' if bad else '') + 'beam single-spin difference XLU not odd under phi -> 2pi-phi on the re-used point: %s vs %s' % (
+                        a_.tolist(), b_.tolist())
+            if bad:
+                rep.violation('attribute-type/%s/%s' % (fset, wname.replace(' ', '_')), '%s, target %s: %s' % (fset, target, bad), replay)
+        except Exception as e:
+            if not B.in_real_code(e):
+                raise
+            rep.violation('attribute-type/exception/%s' % type(e).__name__, '%s: raised %r with %s given as %s' % (fset, e, sorted(held), wname), replay)
 
 
 def run(rep):
@@ -178,13 +274,16 @@ def run(rep):
             phi_eval = rng.uniform(0, 2 * math.pi)
             opts['vars'] = {'phi': phi_eval}
         rep.hist('obs.options', ('weighted ' if weighted else '') + ('vars' if 'vars' in opts else '') or 'none')
+        fobs = common.private(rep, th, '_CBTSA' if name in ('_ALTI', '_ALTBHDVCS') else name, 'the observable stream (c07.obs) skips it')
+        if fobs is None:
+            continue                        # a renamed private helper is no disagreement between model and code
         try:
             if name == '_ALTI':
-                v = float(th._CBTSA(p2, **opts))
+                v = float(fobs(p2, **opts))
             elif name == '_ALTBHDVCS':
-                v = float(th._CBTSA(p2, chargepar=+1, **opts))
+                v = float(fobs(p2, chargepar=+1, **opts))
             else:
-                v = float(getattr(th, name)(p2, **opts))
+                v = float(fobs(p2, **opts))
         except Exception as ex:
             v = 'EXC:' + type(ex).__name__
         k2 = p2.copy()
@@ -213,6 +312,7 @@ def run(rep):
     if broken or not ok:
         n_or *= 4
     oracle_symmetries(rep, rng, n_or)
+    attribute_type_stream(rep, rng, 30 if quick else 600)
     if broken and not rep.violations:
         # also aim the search at the formula sets whose model disagrees
         for fs in sorted({b[1] for b in broken if b[1] in B.FORMULA_SETS}):    # ('model-unavailable', 'all', …) names no set
